@@ -85,9 +85,47 @@ Proof. vm_compute; reflexivity. Qed.
 (* for every count: after the loop the variable holds the number of iterations made *)
 Lemma dotimes_iterations : forall k, Z.max k 0 = Z.of_nat (List.length (seq 0 (Z.to_nat k))).
 Proof. intros k. rewrite seq_length. lia. Qed.
-(* (funcall (lambda (a b) (list a 'x)) 1) : too few arguments are accepted *)
+(* repaired in slip (binder, bfffda3): a call with too few arguments is an error, like one with too many.
+   (funcall (lambda (a b) (list a 'x)) 1) and (funcall (lambda (a b) a) 1 2 3): arity error in every mode *)
 Definition w_short_args := [EFuncall (ELambda ["a"; "b"] [EPrim PList [EVar "a"; EQuote (DSym "x")]]) [I 1]].
-Lemma too_few_arguments_refuted : fst (runM 60 w_short_args) = Ok (VList [VInt 1; VSym "x"]) /\ fst (runS 60 w_short_args) = Er EArity /\ guardb 60 w_short_args = false.
+Definition w_long_args := [EFuncall (ELambda ["a"; "b"] [EVar "a"]) [I 1; I 2; I 3]].
+Example wrong_argument_count_is_error :
+  forallb (fun m => match fst (run m 60 w_short_args), fst (run m 60 w_long_args) with
+                    | Er EArity, Er EArity => true | _, _ => false end) [Slip; Ref; Chk] = true.
+Proof. vm_compute; reflexivity. Qed.
+(* for every function, state and argument list, in every mode: fewer arguments than required parameters, or more than
+   required + optional ones, is the arity error and nothing else happens *)
+Lemma arity_error : forall m ev st ps os body csc args,
+  List.length args < List.length ps \/ List.length ps + List.length os < List.length args ->
+  apply_fn m ev st (CClo ps os body csc) args = (Er EArity, st).
+Proof.
+  intros m ev st ps os body csc args H. unfold apply_fn.
+  destruct (Nat.ltb (List.length ps + List.length os)%nat (List.length args)) eqn:E1; [reflexivity|].
+  destruct (Nat.ltb (List.length args) (List.length ps)) eqn:E2; [reflexivity|].
+  apply Nat.ltb_ge in E1. apply Nat.ltb_ge in E2. lia.
+Qed.
+(* &optional parameters: the arguments are evaluated first (left to right), then the default forms of the parameters
+   that got no argument, left to right, each seeing the parameters before it.
+   (funcall (lambda (a &optional (b (tr 3 (+ a 1))) (c (tr 4 (+ a b)))) (list a b c)) (tr 1 1))          => (1 2 3), trace 1 3 4
+   (funcall (lambda (a &optional (b (tr 3 (+ a 1))) (c (tr 4 (+ a b)))) (list a b c)) (tr 1 1) (tr 2 10)) => (1 10 11), trace 1 2 4 *)
+Definition opt_lambda :=
+  ELambdaO ["a"] [("b", ETr 3 (EPrim PAdd [EVar "a"; I 1])); ("c", ETr 4 (EPrim PAdd [EVar "a"; EVar "b"]))]
+           [EPrim PList [EVar "a"; EVar "b"; EVar "c"]].
+Definition w_opt1 := [EFuncall opt_lambda [ETr 1 (I 1)]].
+Definition w_opt2 := [EFuncall opt_lambda [ETr 1 (I 1); ETr 2 (I 10)]].
+Example optional_defaults_in_order :
+  forallb (fun m => match run m 60 w_opt1, run m 60 w_opt2 with
+                    | (Ok (VList [VInt 1; VInt 2; VInt 3]), s1), (Ok (VList [VInt 1; VInt 10; VInt 11]), s2) =>
+                        match trace s1, trace s2 with [1; 3; 4]%Z, [1; 2; 4]%Z => true | _, _ => false end
+                    | _, _ => false end) [Slip; Ref; Chk] = true.
+Proof. vm_compute; reflexivity. Qed.
+(* known finding: the binder fills ONE scope; a closure made by a default form later sees the parameters bound after it
+   instead of the enclosing variables of the same names
+   (let ((b 1)) (funcall (lambda (&optional (f (lambda () b)) (b 5)) (funcall f))))      1, Go: 5 *)
+Definition w_default_closure :=
+  [ELet [("b", I 1)] [EFuncall (ELambdaO [] [("f", ELambda [] [EVar "b"]); ("b", I 5)] [EFuncall (EVar "f") []]) []]].
+Lemma default_closure_refuted :
+  fst (runM 60 w_default_closure) = Ok (VInt 5) /\ fst (runS 60 w_default_closure) = Ok (VInt 1) /\ guardb 60 w_default_closure = false.
 Proof. repeat split; vm_compute; reflexivity. Qed.
 (* repaired (repo_fixes/C01-6): the end test of do / do* is evaluated whatever its shape.
    (do ((i 0 (1+ i))) (t 5)) => 5 ; (do* ((i 0 (1+ i)) (s nil (> i 2))) (s i)) => 3, in every mode, inside the guard *)
